@@ -56,6 +56,14 @@ static mut MAX_OBJECTS: usize = 64;
 
 static mut MANUAL_EVENTS_BETWEEN_COLLECT: usize = 64;
 
+std::thread_local! {
+    /// Set while the current thread runs collections from `Local::unpin`, on whichever `Local`.
+    /// During its tear-down a thread registers a fresh `Local` for every critical section (see
+    /// `with_handle`), so the per-`Local` flag `collecting` alone does not keep collections from
+    /// nesting. It has no destructor, so it is accessible at any point of the thread's life.
+    static THREAD_COLLECTING: Cell<bool> = const { Cell::new(false) };
+}
+
 /// A bag of deferred functions.
 pub(crate) struct Bag(Vec<Deferred>);
 
@@ -456,8 +464,9 @@ impl Local {
     #[inline]
     pub(crate) fn unpin(&self) {
         let guard_count = self.guard_count.get();
-        if guard_count == 1 && !self.collecting.get() {
+        if guard_count == 1 && !self.collecting.get() && !THREAD_COLLECTING.with(Cell::get) {
             self.collecting.set(true);
+            THREAD_COLLECTING.with(|c| c.set(true));
             while self.must_collect.get() {
                 self.must_collect.set(false);
                 debug_assert!(self.epoch.load(Ordering::Relaxed).is_pinned());
@@ -468,6 +477,7 @@ impl Local {
                 self.repin_unless_foreign_guards(0);
             }
             self.collecting.set(false);
+            THREAD_COLLECTING.with(|c| c.set(false));
         }
 
         // Read the count again: a destructor run by the collection above may have created a
